@@ -1073,6 +1073,9 @@ class Interp:
             if isinstance(o, HDict):
                 yield st, self._or([self.values_eq(st, item, k) for k, _ in o.items])
                 return
+        if isinstance(container, (SNone, SInt, SBool)):
+            yield st, self.exc('TypeError', node)       # argument of type 'NoneType' / 'int' is not iterable
+            return
         raise EngineLimit('in on %r' % (container,))
 
     def type_ok(self, v, t):
